@@ -1698,6 +1698,8 @@ var opForward = []struct{ fn, callee string }{
 	{"(*replica.diffDisk).Sync", "syscall.Fsync"}, {"(*replica.diffDisk).fullWriteAt", "invoke:WriteAt"}, {"(*replica.diffDisk).readModifyWrite", "(*replica.diffDisk).fullWriteAt"},
 	// protocol reads that must not be answered from a cache: the answer changes behind the caller's back
 	{"(*backend/remote.Remote).info", "(*net/http.Client).Do"},
+	// the replica resource the action gate (checkAction) and the controller's polls read: built from the server's current state
+	{"(*replica/rest.Server).Replica", "(*replica.Server).Status"},
 	{"(*backend/dynamic.Factory).VerifyReplicaAlive", "invoke:VerifyReplicaAlive"},
 	{"(*backend/dynamic.Factory).Create", "invoke:Create"},
 	{"(*backend/dynamic.Factory).SignalToAdd", "invoke:SignalToAdd"},
@@ -1764,7 +1766,7 @@ func ruleOpForward(rule string) ruleFn {
 			}
 			c.Guard(rule, fn, sites, "report success", nil, need)
 		}
-		if n < 19 {
+		if n < 20 {
 			c.Undecided(rule, "vacuity-floor", "", fmt.Sprintf("only %d data-path functions found", n))
 		}
 	}
